@@ -514,6 +514,23 @@ func (h *H) monitor(op string, before, after snap, paidWho int, paid int64, spec
 			out.Nontrivial("conversion")
 		}
 	}
+	// (3b) the converse, for the proposal that just received a deposit: minimum reached ⇒ voting starts (requests in a
+	// non-deposit denom excepted: their share cannot be deposited)
+	if f := strings.Fields(op); paid > 0 && (f[0] == "deposit" || f[0] == "submit") {
+		for pid, p := range after.props {
+			bp, existed := before.props[pid]
+			if p.status != "deposit" || (existed && bp.total.Equal(p.total)) {
+				continue
+			}
+			foreign := false
+			for _, m := range h.props[pid] {
+				foreign = foreign || m.spendOther > 0
+			}
+			if min := h.specMin(before, pid, p.exp); !foreign && p.total.GTE(min) {
+				out.Violate(fmt.Sprintf("minimum deposit reached (total %s >= %s) but voting was not activated", p.total, min))
+			}
+		}
+	}
 	// (4b) quorum by type: outcome of every tally in this block
 	for _, ts := range specs {
 		bp := before.props[ts.pid]
@@ -792,6 +809,17 @@ func (h *H) msgSpend(fx64, other int64, to int, ok bool) pmsg {
 		amt = amt.Add(sdk.NewInt64Coin(otherDenom, other))
 	}
 	m := &distrtypes.MsgCommunityPoolSpend{Authority: h.gov, Recipient: h.accs[to].String(), Amount: amt}
+	// whether the handler succeeds is an environment fact (an empty amount is rejected, the pool must cover the rest):
+	// ask the real handler on a discarded cache context
+	cctx, _ := h.ctx().CacheContext()
+	if _, err := h.s.App.MsgServiceRouter().Handler(m)(cctx, m); (err == nil) != ok {
+		ok = err == nil
+	}
+	if amt.Empty() {
+		// stored and decoded again, an empty amount is a nil slice, which the distribution handler rejects
+		// ("amount cannot be nil") when the proposal is executed
+		ok = false
+	}
 	return pmsg{url: sdk.MsgTypeURL(m), wf: true, ok: ok, act: fmt.Sprintf("credit,%s,%d,%d", fx, other, to), real: m,
 		spendFx: fx, spendOther: other, isSpend: true, creditTo: to}
 }
